@@ -97,8 +97,11 @@ def bins(start, stop, fmt="gff", one=True):
     if start >= MAX_CHROM_SIZE or stop >= MAX_CHROM_SIZE:
         if one:
             return 1
-        else:
+        elif start >= MAX_CHROM_SIZE or start < 0:
             return {1}
+        # a query range that starts in range but extends past the largest bin still overlaps every
+        # bin from its start onwards; features in those bins must not be hidden from the query
+        stop = MAX_CHROM_SIZE - 1
 
     # Jump to highest resolution bin that will fit these coords (depending on
     # whether we have a BED or GFF-style coordinate).
